@@ -146,7 +146,12 @@ theorem C15_append_only (m : M) :
             show (State.consumeCards env (s1.produceCards (s1.holeOf v.val.player))
               (v.val.holeCards.filter Card.known)).ops = _
             rw [ops_consume]; exact h1
-          · rw [ops_muck hs2]; exact h1
+          · split at hs2
+            · cases hs2
+            · rename_i s3 hs3
+              cases hs2
+              exact (show ({ s3 with runoutSelectors := _ } : State).ops = s3.ops from rfl).trans
+                ((ops_muck hs3).trans h1)
     case opCollect =>
       left; unfold step; rw [hctl]; simp only []
       (repeat' split) <;> first | rfl | skip
